@@ -685,6 +685,12 @@ fn cand_decl(c: &Cand, fname: &str, in_struct: bool) -> Option<(String, Option<S
     }
 }
 
+/// the prototype of a function template `cand_decl` wrote with its body
+fn template_prototype(def: &str) -> Option<String> {
+    let at = def.find(") { R")?;
+    Some(format!("{});\n", &def[..at]))
+}
+
 /// RSSL program for one declaration order; None = not expressible (SKIP).  `expect` is the struct named in assert_type.
 fn program(cands: &[Cand], args: &[ETy], opts: &Opts, expect: Option<u32>) -> Option<String> {
     let mut s = String::new();
@@ -1975,8 +1981,9 @@ fn seq_well_formed(items: &[Item], path: &SeqPath) -> bool {
             Item::Redecl(id, nd, def) => {
                 let plain = items
                     .iter()
-                    .any(|x| matches!(x, Item::Decl(_, c) if c.id == *id && c.tkinds.is_empty() && is_user(c) && *nd <= c.params.len()));
-                if *path != SeqPath::Free && !matches!(path, SeqPath::Intrinsic(_)) {
+                    .any(|x| matches!(x, Item::Decl(_, c) if c.id == *id && is_user(c) && *nd <= c.params.len()));
+                let template = items.iter().any(|x| matches!(x, Item::Decl(_, c) if c.id == *id && !c.tkinds.is_empty()));
+                if *path != SeqPath::Free && (template || !matches!(path, SeqPath::Intrinsic(_))) {
                     return false;
                 }
                 if !ids.contains(id) || !plain || (*def && defined.contains(id)) {
@@ -2035,6 +2042,23 @@ fn seq_well_formed(items: &[Item], path: &SeqPath) -> bool {
         }
     }
     true
+}
+
+/// `amb` that names a candidate more than once, with every candidate named once: one left = it is selected
+fn collapse_duplicates(v: &Verdict) -> Option<Verdict> {
+    let Verdict::Amb(ids) = v else {
+        return None;
+    };
+    let mut d = ids.clone();
+    d.sort();
+    d.dedup();
+    if d.len() == ids.len() {
+        None
+    } else if d.len() == 1 {
+        Some(Verdict::Sel(d[0], None))
+    } else {
+        Some(Verdict::Amb(d))
+    }
 }
 
 /// what a name denotes at a call
@@ -2191,7 +2215,11 @@ fn seq_program(items: &[Item], include: &[bool], path: &SeqPath) -> Option<Strin
                 if !is_user(c) {
                     continue;
                 }
-                let (decl, _) = cand_decl(c, &fname, in_struct)?;
+                let (mut decl, _) = cand_decl(c, &fname, in_struct)?;
+                if !c.tkinds.is_empty() && items.iter().any(|x| matches!(x, Item::Redecl(id, _, true) if *id == c.id)) {
+                    // a function template that is defined further down: this declaration is its prototype
+                    decl = template_prototype(&decl)?;
+                }
                 if in_struct {
                     if *sc == 1 { body2.push_str(&decl) } else { body.push_str(&decl) }
                 } else {
@@ -2214,7 +2242,14 @@ fn seq_program(items: &[Item], include: &[bool], path: &SeqPath) -> Option<Strin
                 let mut c2 = c.clone();
                 c2.non_default = *nd;
                 let (proto, def) = cand_decl(&c2, &fname, false)?;
-                s.push_str(&wrap(sc == 1, &if *is_def { def? } else { proto }));
+                let text = if c.tkinds.is_empty() {
+                    if *is_def { def? } else { proto }
+                } else if *is_def {
+                    proto // (a template's declaration carries its body)
+                } else {
+                    template_prototype(&proto)?
+                };
+                s.push_str(&wrap(sc == 1, &text));
             }
             Item::Site(mode, args, targs) => {
                 if !include[k] {
@@ -2698,6 +2733,34 @@ impl Runner {
                         show_verdict(v),
                         e
                     ));
+                } else if let Some(collapsed) = collapse_duplicates(v) {
+                    // an ambiguity that names a function twice: is the verdict right once each function is counted once?
+                    let dup_ok = match &collapsed {
+                        Verdict::Amb(_) => self.judge_visible(*k, &visible, &collapsed, &args, &targs, path).is_ok(),
+                        Verdict::Sel(id, _) => {
+                            let j = judge_set(&mut self.real, &visible, &args, &targs);
+                            oracle(&j, &collapsed).is_ok()
+                                && matches!(self.reference(&visible, &args, &targs, path), Some(Verdict::Sel(r, _)) if r == *id)
+                        }
+                        _ => false,
+                    };
+                    let redeclared = |id: &u32| items[..*k].iter().any(|x| matches!(x, Item::Redecl(i, _, _) if i == id));
+                    let dups: Vec<u32> = match v {
+                        Verdict::Amb(ids) => ids.windows(2).filter(|w| w[0] == w[1]).map(|w| w[0]).collect(),
+                        _ => Vec::new(),
+                    };
+                    if dup_ok && dups.iter().all(redeclared) {
+                        self.hist.add("seq-site:ambiguous-between-two-declarations-of-one-template");
+                        verdict = Err(format!(
+                            "redeclared-template: site {}: the call is `{}`: function template(s) {:?} are declared more than once above the call and every declaration is taken for an overload of its own - ambiguous between a function and itself ({})",
+                            k,
+                            show_verdict(v),
+                            dups,
+                            e
+                        ));
+                    } else {
+                        verdict = Err(e);
+                    }
                 } else {
                     verdict = Err(e);
                 }
@@ -3774,7 +3837,25 @@ pub fn run(args: &Args, out: &mut Out) {
             let c0 = centre[0];
             centre.push(if rng.chance(1, 2) { related_ty(&mut rng, c0) } else { grid_ty(&mut rng) });
         }
-        let main = |nd: usize| Cand { id: 0, non_default: nd, params: centre.iter().map(|t| Param { io: Io::In, ty: *t }).collect(), tkinds: vec![] };
+        // every third unit: the function is a template - the first parameter (or, 1/4, none: its parameter types mention no
+        // template parameter) is `T` / `vector<T, n>`; a definition further down makes the first declaration its prototype
+        let tmpl = i % 3 == 1;
+        let mention = tmpl && i % 12 != 1;
+        let first_layer = match centre[0].layer {
+            Layer::Vector(_, n) if mention && rng.chance(1, 2) => Layer::TVec(0, n),
+            _ if mention => Layer::TVar(0),
+            l => l,
+        };
+        let main = |nd: usize| Cand {
+            id: 0,
+            non_default: nd,
+            params: centre
+                .iter()
+                .enumerate()
+                .map(|(k, t)| Param { io: Io::In, ty: if k == 0 { Ty { mods: Mods(0), layer: first_layer } } else { *t } })
+                .collect(),
+            tkinds: if tmpl { vec![true] } else { vec![] },
+        };
         let nd_a = rng.below(m as u64 + 1) as usize;
         let nd_b = if i % 5 == 4 { nd_a } else { rng.below(m as u64 + 1) as usize };
         let sc: u8 = if i % 3 == 2 { 1 } else { 0 };
@@ -3812,7 +3893,9 @@ pub fn run(args: &Args, out: &mut Out) {
             let mut items: Vec<Item> = Vec::new();
             let sites = |items: &mut Vec<Item>| {
                 for t in &tuples {
-                    items.push(Item::Site(mode, t.clone(), Vec::new()));
+                    // `T` cannot be deduced from a parameter list that does not mention it: name it
+                    let targs = if tmpl && !mention { vec![Some(Ty { mods: Mods(0), layer: Layer::Scalar(2) })] } else { Vec::new() };
+                    items.push(Item::Site(mode, t.clone(), targs));
                 }
             };
             let place = |items: &mut Vec<Item>, slot: usize| {
